@@ -92,18 +92,20 @@ pub const NS4: [&str; 4] = [X, Y, "urn:z", "urn:w"];
 pub const ATTR_NAMES: [(&str, &str); 3] = [("", "k"), (X, "l"), ("", "m")];
 pub const PREFIXES: [&str; 2] = ["", "p"];
 pub const URIS: [&str; 2] = [X, Y];
-/// the first three are well-formed; the others must be refused (attribute duplicated through an inherited synonym
+/// the first four are well-formed (the fourth builds one text node from text, CDATA with a CR, a reference and an
+/// empty CDATA section); the others must be refused (attribute duplicated through an inherited synonym
 /// prefix, prefix declared twice, duplicate xml:id): a parser that accepts one of them hands out a tree that breaks
 /// the structural invariants
-pub const PARSE_TEXTS: [&str; 6] = [
+pub const PARSE_TEXTS: [&str; 7] = [
     "<r>u<s/>v</r>",
     "<r xml:id=\"i\"><s xml:id=\"j\"/></r>",
     "<p:r xmlns:p=\"urn:x\" p:l=\"1\"/>",
+    "<r>u<![CDATA[v\rw]]>&#13;<![CDATA[]]>x</r>",
     "<r xmlns:p=\"urn:x\"><a xmlns:q=\"urn:x\" p:l=\"1\" q:l=\"2\"/></r>",
     "<r xmlns:p=\"urn:x\" xmlns:p=\"urn:y\"/>",
     "<r xml:id=\"i\"><s xml:id=\" i \"/></r>",
 ];
-pub const PARSE_TEXTS_WELL_FORMED: usize = 3;
+pub const PARSE_TEXTS_WELL_FORMED: usize = 4;
 pub const FRAGMENT_TEXTS: [&str; 2] = ["u<s/>v", "<s/><s/>"];
 
 #[derive(Clone, Debug, PartialEq, Eq)]
